@@ -96,14 +96,15 @@ class NdArrayNode(Node):
             shape = self.children["shape"].construct()
             tmp = [o.construct() for o in self.children["content"]]
 
-            # TODO: this is a hack to get the correct shape of the array. We
-            # should find _a better way_ to do this.
-            if len(shape) == 1:
-                content = np.ndarray(shape=len(tmp), dtype="O")
-                for i, v in enumerate(tmp):
-                    content[i] = v
-            else:
-                content = np.array(tmp, dtype="O")
+            # Fill an array of the saved shape cell by cell: np.array(tmp) would
+            # guess the shape from the nesting of the values and get it wrong
+            # for cells that are sequences themselves and for empty axes.
+            content = np.empty(shape, dtype="O")
+            for index in np.ndindex(*shape):
+                cell = tmp
+                for i in index:
+                    cell = cell[i]
+                content[index] = cell
 
             return content
 
